@@ -555,8 +555,16 @@ class Sim:
         self.occ[id(x.ins)] += 1
         inputs = [self.post_get(r) for r in x.uses]
         for ui, pid_, pj in role["deps"]:
+            if pid_ in self.rec.new_removed or ui >= len(inputs):
+                continue  # the producing move was coalesced away: its source is the operand itself
+            if self.occ[pid_] != n + 1:
+                raise Mismatch(
+                    "spillorder",
+                    "%s (spill %s code) reads temporary %r before the instruction of the same spill sequence that computes it has run"
+                    % (where, role["kind"], x.uses[ui].name),
+                )
             exp = self.last_out.get((pid_, pj))
-            if exp is not None and ui < len(inputs) and inputs[ui] != exp:
+            if exp is not None and inputs[ui] != exp:
                 raise Mismatch(
                     "spilltemp",
                     "%s (spill %s code) reads temporary %r from %s, which no longer holds %s but %s"
